@@ -65,8 +65,12 @@ def gen_classes(rng, n_docs=1):
             else:
                 c['meta_inputs'].append(ref)
         if rng.random() < 0.05:  # dangling or cyclic declarations
-            c['meta_inputs'].append({'name': rng.choice(['nothing', f'k{min(i + 1, n - 1):02d}'])})
+            c['meta_inputs'].append({'name': rng.choice(['nothing', '@later'])})
         classes.append(c)
+    for c in classes:   # '@later': a reference to a class declared later (or to itself): cycles
+        for r in c['meta_inputs']:
+            if r.get('name') == '@later':
+                r['name'] = classes[rng.randrange(c['id'], len(classes))]['name']
     return classes
 
 
